@@ -538,6 +538,39 @@ def r11d(ctx):
             ctx.bad(cid, c.module.loc(fn), "returns lengths without consulting self._partitions / self._filtered: len() / lengths of a partition selection report other partitions' row counts")
 
 
+def _selection_membership_tests(fn):
+    """`x in <expr>._partitions` / `x in <expr>.partitions` comparisons (not `for x in ...` iterations)"""
+    return [n for n in ast.walk(fn) if isinstance(n, ast.Compare) and any(isinstance(o, (ast.In, ast.NotIn)) for o in n.ops) and any(isinstance(c_, ast.Attribute) and c_.attr in ("_partitions", "partitions") for c_ in n.comparators)]
+
+
+@rule(
+    "R11i",
+    ["C11", "C06"],
+    """A PARTITION SELECTION IS A SEQUENCE, NOT A SET: `_partitions` / `Partitions.partitions` may repeat and reorder partition
+    numbers (partitions[[1, 1, 2]], partitions[::-1]). Per-partition values of a selected view - divisions, lengths, file parts - are
+    picked BY POSITION (`[values[p] for p in sel]`); a membership test `i in <x>._partitions` answers for the set of selected numbers,
+    drops repeats and restores sorted order. No such test may occur anywhere in the package (expected count zero; a positive example
+    under sa/examples must be flagged on every run). s.partitions[[1, 1, 2]] of a set_index result lost a partition this way.""",
+)
+def r11i(ctx):
+    import os
+
+    model = ctx.model
+    n = 0
+    for mod, cls, fn in model.all_functions():
+        n += 1
+        for t in _selection_membership_tests(fn):
+            fq = qual(cls, fn) if cls is not None else f"{mod.name.split('.', 1)[-1]}.{fn.name}"
+            ctx.bad(f"{fq}:selection-membership", mod.loc(t), f"`{unparse(t)}` treats the selected partitions as a set: a selection that repeats or reorders partitions gets the values of the distinct partitions in sorted order (fewer / other divisions, lengths or parts than the view has partitions)")
+    ctx.floor("functions scanned for selection membership tests", n, 1500)
+    ex = os.path.join(os.path.dirname(os.path.dirname(__file__)), "examples", "r11d_positive.py")
+    tree = ast.parse(open(ex).read())
+    flagged = {f.name for f in tree.body if isinstance(f, ast.FunctionDef) and _selection_membership_tests(f)}
+    if flagged != {"culled"}:
+        raise AnalysisError(f"R11i self-check failed: positive example flagged {sorted(flagged)}, expected ['culled']")
+    ctx.ok("examples/r11d_positive.py", "sa/examples/r11d_positive.py", "positive example flagged, its by-position twin is not")
+
+
 @rule(
     "R11e",
     ["C11", "C09", "C06", "C01", "C04", "C18"],
